@@ -1,6 +1,7 @@
 import FractopoModel.Basic.Wire
 import FractopoModel.Model.Topology
 import FractopoModel.Spec.Classes
+import FractopoModel.Spec.SandersonNixon
 /-!
 # Model driver: runs the hand-written models and specs (never the regenerated
 definitions, so that it builds whatever the state of /repo) behind a line protocol.
@@ -43,6 +44,30 @@ def degclass (a : Args) : Option String := do
   let n ← (a.get? "n") >>= parseNat?
   some s!"class={Spec.classOfDegree n}"
 
+def showVal : Val → String
+  | .num q => showRat q
+  | .nan => "nan"
+
+/-- `params X= Y= I= E= tl= bl= area= circ= pi= sqrtv=`: the published definitions -/
+def params (a : Args) : Option String := do
+  let x ← (a.get? "X") >>= parseRat?
+  let y ← (a.get? "Y") >>= parseRat?
+  let i ← (a.get? "I") >>= parseRat?
+  let e ← (a.get? "E") >>= parseRat?
+  let tl ← (a.get? "tl") >>= parseRats?
+  let bl ← (a.get? "bl") >>= parseRats?
+  let area ← (a.get? "area") >>= parseRat?
+  let circ ← (a.get? "circ") >>= parseBool?
+  let pi ← (a.get? "pi") >>= parseRat?
+  let sq ← (a.get? "sqrtv") >>= parseRat?
+  let n : Spec.NetIn := ⟨x, y, i, e, tl, bl, area, circ, pi, fun _ => sq⟩
+  let vals := Spec.paramNames.map fun k => s!"{enc k}:{match n.param k with | some v => showVal v | none => "missing"}"
+  some s!"params={"|".intercalate vals}"
+
+def bweight (a : Args) : Option String := do
+  let c ← (a.get? "c") >>= parseInt?
+  some s!"weight={match Spec.boundaryWeight c with | some w => toString w | none => "error"}"
+
 end Cmd
 
 def dispatch (line : String) : String :=
@@ -57,6 +82,8 @@ def dispatch (line : String) : String :=
       | "topo" => Cmd.topo a
       | "branchid" => Cmd.branchid a
       | "degclass" => Cmd.degclass a
+      | "params" => Cmd.params a
+      | "bweight" => Cmd.bweight a
       | _ => some s!"error=unknown-command:{cmd}"
     r.getD "error=bad-arguments"
 
